@@ -327,6 +327,46 @@ def tlc_trace(spec_dir, module, trace_file, cfg=None, timeout=900, env=None, hea
     return v
 
 
+def alt_block(alternatives):
+    """Records of a group of alternatives (TraceIO.tla, 'alternatives'): the trace is accepted if the trace
+    specification explains at least one of them.  alternatives: list of lists of records."""
+    alternatives = [a for a in alternatives]
+    if len(alternatives) == 1:
+        return list(alternatives[0])
+    sizes = [len(a) + 2 for a in alternatives]
+    out = []
+    for i, a in enumerate(alternatives):
+        out.append({"k": "alt", "nx": sizes[i] if i < len(alternatives) - 1 else 0, "to": 0})
+        out += a
+        out.append({"k": "altjoin", "nx": 0, "to": 1 + sum(sizes[i + 1:])})
+    return out
+
+
+def linearizations(ops, limit=720):
+    """All orders of `ops` that respect the recorded real-time order.  ops: list of (call_stamp, ret_stamp, record)
+    with stamps from ONE global clock (scheduler step counter / SeqCst counter taken before the call and after the
+    return); a precedes b iff a.ret < b.call (this includes the program order of a thread).  Returns a list of
+    record lists; raises ToolError when there are more than `limit`."""
+    n = len(ops)
+    before = [[ops[a][1] < ops[b][0] for b in range(n)] for a in range(n)]
+    res = []
+
+    def rec(done, order):
+        if len(res) > limit:
+            raise ToolError(f"more than {limit} linearizations of {n} overlapping calls - make the concurrent program smaller")
+        if len(order) == n:
+            res.append([ops[i][2] for i in order])
+            return
+        for i in range(n):
+            if i in done:
+                continue
+            if all((j in done) for j in range(n) if before[j][i]):
+                rec(done | {i}, order + [i])
+
+    rec(frozenset(), [])
+    return res
+
+
 def read_ndjson(path):
     out = []
     with open(path) as f:
